@@ -33,15 +33,28 @@ CLAIM = dict(
           "(@_if_not_closed): without it slicing a closed view returns a fresh open view (finding dead-view-sliced, "
           "kept as a decide witness). 'every operation fails' after close/free is claimed and proved for read, "
           "write, seek, tell, flush, address and slicing; __len__ and a repeated close() are not in the property's "
-          "list of operations (they touch no memory, the code does not guard them) and are left as they are."),
+          "list of operations (they touch no memory, the code does not guard them) and are left as they are. "
+          "Hardening checklist - not applicable to this property: nothing in scope is counted in 8 or 16 bits (no "
+          "257 / 65,537 counters; lengths 65,537 and 70,000 and histories of 3,000 calls are run instead); nothing in "
+          "scope returns a generator/iterator or a mutable result (read returns bytes, tell/len ints), so 'results "
+          "edited or consumed lazily by the caller' reduces to: views handed back earlier are re-checked at the end "
+          "of every history, the dict returned by sdram_alloc_for_vertices and the dicts passed to it are cleared by "
+          "the caller, a bytearray passed to write is overwritten after the call; the simulated machine has no "
+          "parameter a view depends on other than chip, base, length and content (all varied, and different between "
+          "the two owners of a session); no rig class is passed INTO these functions except the controller (a "
+          "subclass of MachineController is used throughout). Only tagged, not judged (outside the property's text): "
+          "tag/app_id/clear passed through to sdram_alloc (alloc-args, vertex-tag), keys of the dict returned by "
+          "sdram_alloc_for_vertices, propagation of an allocator failure, a with-block swallowing the caller's "
+          "exception. numpy.uint* arguments and objects that only define __index__ are not used (the code compares "
+          "and adds its arguments; the property does not ask for more than integers)."),
     technique="Lean 4 theorems over a hand-written model + differential correspondence + Lean spec as oracle")
 
 THEOREMS = ["step_confined", "step_WF", "run_confined", "run_confined_alloc", "slice_exact", "slice_within_parent",
             "step_refines_file", "run_refines_file", "failed_read_moves_nothing", "failed_write_moves_nothing",
             "early_offset_update_breaks_failed_read", "read_back", "close_closes", "dead_after_close", "free_frees",
             "no_access_after_free", "orig_read_escapes_below", "orig_write_escapes_above", "fix_conservative",
-            "orig_slice_of_closed_view_is_open", "getitem_fix_conservative",
-            "seek_end_sign"]
+            "orig_slice_of_closed_view_is_open", "getitem_fix_conservative", "failed_free_moves_nothing",
+            "absFileWin_eq", "seek_end_sign"]
 
 RULE = ("histories of 1-14 calls (seek with all three origins and offsets from -len-3 to len+4 biased to the edges, "
         "bad origin; read default / explicit counts incl. 0, negative and beyond the end; writes of 0-2*len bytes; "
@@ -51,8 +64,27 @@ RULE = ("histories of 1-14 calls (seek with all three origins and offsets from -
         "FatalReturnCodeError (a failing write first stores 0..all of the bytes it was handed), followed by tell + "
         "retry, relative seek + retry, read-back, or slice + close, and then the rest of the history) on views of "
         "length 0-12 (sometimes up to 40, sometimes end < start) at bases 0, 1 and SDRAM addresses, created "
-        "directly, by sdram_alloc_as_filelike and by sdram_alloc_for_vertices; a history is non-trivial when at "
-        "least one read or write was truncated; distinct = distinct canonical JSON of the history")
+        "directly, by sdram_alloc_as_filelike and by sdram_alloc_for_vertices. GENERAL STREAMS (hardening round), all "
+        "judged by the same model comparison + Lean oracle: ARGUMENT KINDS - per case a palette of integer kinds for "
+        "seek/read/slice arguments, origins, steps and chip coordinates: int, bool, IntEnum members, numpy.int64, or "
+        "BIG ints (+-2^31, 2^32, 2^53+1, 2^63, 2^64, 2^100 as offsets, counts, slice bounds, bad origins/steps, with "
+        "bases up to 2^100); write data as bytes / bytearray (60% overwritten by the caller right after the call) / "
+        "memoryview; OPTIONAL PARAMETERS and conventions - read(n_bytes=), write(bytes=), seek(n_bytes=, from_what=) "
+        "positional / keyword / mixed, MemoryIO(...) positional / keyword, sdram_alloc_as_filelike positional, keyword "
+        "and with x, y, app_id from the context, tag 0-255, app_id, clear; sdram_alloc_for_vertices with 1-4 vertices "
+        "(identifiers int, str with % and {}, tuple, namedtuple, frozenset, object; some without SDRAM), core_as_tag "
+        "given True/False/omitted, custom sdram_resource / cores_resource keys, clear, keyword call, the caller "
+        "clearing every dict it passed and the dict handed back; close() plain, by with-block, by a with-block "
+        "left through an exception; HISTORIES - the same call repeated (5%); SESSIONS (8%): two owners equal in all "
+        "but one aspect (chip x, chip y, chip swapped, base, length, content) on ONE controller in a freshly "
+        "reloaded module, used alternately or doing the same calls in either order; FAULTS - as above plus "
+        "sdram_free raising inside free() (then tell, read, free again) and the allocator failing once at every "
+        "vertex position before the view is created; SCALE (a handful per run) - one history of 3,000 calls, 300 "
+        "(thorough 1,200) sibling slices of one view, nested slices 1,100 (1,500) deep, views of 65,537 and 70,000 "
+        "bytes, views of 2^32+5, 2^64 and 2^100 bytes with sparse memory (model comparison only: the whole-view "
+        "content oracle is skipped there); NON-TERMINATION - every call runs under a CPU limit (2 s, 0.3 s after "
+        "three hangs): a call that does not return is reported as did-not-return (the model is total). A history is "
+        "non-trivial when at least one read or write was truncated; distinct = distinct canonical JSON of the history")
 
 MARGIN = 16
 BASES = [0, 1, 7, 0x60000000, 0x60000004, 0x61000003, 0x7ffffff0]
@@ -60,7 +92,7 @@ BASES = [0, 1, 7, 0x60000000, 0x60000004, 0x61000003, 0x7ffffff0]
 # priority of the clause names returned by the Lean oracle -> finding key
 PRIORITY = [("confinement", "confinement"), ("confinement-memory", "confinement"),
             ("dead", "dead-view-operates"), ("dead-sliced", "dead-view-sliced"), ("slice-range", "slice-range"), ("slice-effect", "slice-range"),
-            ("seek-from-end-sign", "seek-from-end-sign"),
+            ("seek-from-end-sign", "seek-from-end-sign"), ("failed-free", "failed-transfer"),
             ("file-transfer", "bounded-file"), ("file-result", "bounded-file"), ("file-warning", "bounded-file"),
             ("file-position", "bounded-file"), ("file-content", "bounded-file")]
 
@@ -73,6 +105,7 @@ WHAT = {
     "failed-transfer": "a read/write whose transfer failed (the controller raised) did not leave the view as "
                        "a failed file operation does: position unmoved, nothing delivered, the error raised",
     "bounded-file": "a call does not behave like the same call on a fixed-length file",
+    "did-not-return": "a call of the implementation did not return (the model is total: every call terminates)",
 }
 
 
@@ -80,22 +113,27 @@ WHAT = {
 # the implementation against a recording controller
 # --------------------------------------------------------------------------
 _FAKE = {}
+_HANGS = [0]
+_SIDE_TAGS = []          # branch tags produced while running the implementation (drained by process)
 
 
 def fake_class():
     """Recording MachineController (built lazily so that import failures of rig
-    are attributed to the implementation)."""
+    are attributed to the implementation; rebuilt after a module reload)."""
     if "cls" in _FAKE:
         return _FAKE["cls"]
     from rig.machine_control.machine_controller import MachineController
     from rig.utils.contexts import ContextMixin
 
     class Recorder(MachineController):
-        def __init__(self, base, win, alloc_base):
-            ContextMixin.__init__(self, {"app_id": 66, "x": None, "y": None})
-            self.base, self.mem, self.alloc_base = base, bytearray(win), alloc_base
+        def __init__(self, context):
+            ContextMixin.__init__(self, context)
+            self.regions = []       # one per view owner: dict(x, y, base, mem (window), far (sparse rest))
             self.log = []
             self.fault = None       # armed by the harness for one call: (bytes to store first, exception kind)
+            self.allocs = []        # every sdram_alloc call: [size, tag, x, y, app_id, clear]
+            self.alloc_queue = []   # addresses the next sdram_alloc calls return
+            self.alloc_fault = None  # absolute index of the sdram_alloc call that fails
 
         def _raise(self, kind):
             from rig.machine_control import scp_connection
@@ -103,41 +141,75 @@ def fake_class():
                 raise scp_connection.FatalReturnCodeError(0x86)
             raise scp_connection.TimeoutError("no response from chip (injected fault)")
 
+        def _region(self, x, y, address):
+            best = None
+            for r in self.regions:
+                if r["x"] == x and r["y"] == y:
+                    d = 0 if r["base"] <= address < r["base"] + len(r["mem"]) else \
+                        min(abs(address - r["base"]), abs(address - r["base"] - len(r["mem"])))
+                    if best is None or d < best[0]:
+                        best = (d, r)
+            return best[1] if best else None
+
         def sdram_alloc(self, size, tag=0, x=None, y=None, app_id=None, clear=False):
-            self.alloc = (size, tag, x, y, clear)
-            return self.alloc_base
+            from rig.machine_control.machine_controller import SpiNNakerMemoryError
+            n = len(self.allocs)
+            self.allocs.append([size, tag, x, y, app_id, clear])
+            if self.alloc_fault == n:
+                raise SpiNNakerMemoryError(size, x, y, tag)
+            return self.alloc_queue.pop(0) if self.alloc_queue else 0x7f000000 + 0x1000 * n
 
         def read(self, address, length_bytes, x=None, y=None, p=0):
+            address, length_bytes, x, y, p = int(address), int(length_bytes), int(x), int(y), int(p)
             self.log.append(["r", address, length_bytes, x, y, p])
             if self.fault is not None:
                 # the transfer fails (SCP timeout / fatal return code): nothing is delivered
                 fault, self.fault = self.fault, None
                 self._raise(fault[1])
+            if length_bytes > 1 << 22:
+                raise RuntimeError("harness: transfer of %d bytes is larger than any generated view" % length_bytes)
+            r = self._region(x, y, address)
             out = bytearray()
             for a in range(address, address + max(0, length_bytes)):
-                i = a - self.base
-                out.append(self.mem[i] if 0 <= i < len(self.mem) else 0)
+                if r is None:
+                    out.append(0)
+                else:
+                    i = a - r["base"]
+                    out.append(r["mem"][i] if 0 <= i < len(r["mem"]) else r["far"].get(a, 0))
             return bytes(out)
 
         def write(self, address, data, x=None, y=None, p=0):
             data = bytes(data)
+            address, x, y, p = int(address), int(x), int(y), int(p)
             self.log.append(["w", address, list(data), x, y, p])
             fault, self.fault = self.fault, None
             if fault is not None:
                 # the transfer fails after the machine stored the first fault[0] bytes
                 data = data[:fault[0]]
+            r = self._region(x, y, address)
             for k, b in enumerate(data):
-                i = address + k - self.base
-                if 0 <= i < len(self.mem):
-                    self.mem[i] = b
+                if r is not None:
+                    i = address + k - r["base"]
+                    if 0 <= i < len(r["mem"]):
+                        r["mem"][i] = b
+                    else:
+                        r["far"][address + k] = b
             if fault is not None:
                 self._raise(fault[1])
 
         def sdram_free(self, ptr, x=None, y=None):
-            self.log.append(["f", ptr, x, y])
+            self.log.append(["f", int(ptr), int(x), int(y)])
+            fault, self.fault = self.fault, None
+            if fault is not None:
+                self._raise(fault[1])
 
     _FAKE["cls"] = Recorder
     return Recorder
+
+
+def specs(case):
+    """the view owners of a case: the case itself and its twins"""
+    return [case] + list(case.get("twins", []))
 
 
 def root_range(case):
@@ -149,50 +221,192 @@ def root_range(case):
     return case["start"], case["start"] + case["s1"] - case["s0"]
 
 
-def make_root(case, mc):
-    from rig.machine_control.machine_controller import MemoryIO
-    x, y = case["x"], case["y"]
-    if case["mode"] == "direct":
-        return MemoryIO(mc, x, y, case["start"], case["stop"])
-    if case["mode"] == "alloc":
-        return mc.sdram_alloc_as_filelike(case["size"], x=x, y=y)
-    from rig.machine_control.utils import sdram_alloc_for_vertices
-    from rig.place_and_route import Cores, SDRAM
-    v = object()
-    d = sdram_alloc_for_vertices(mc, {v: (x, y)}, {v: {Cores: slice(1, 2), SDRAM: slice(case["s0"], case["s1"])}})
-    return d[v]
+_ENUMS = {}
+
+
+def conv(n, kind):
+    """the integer `n` in one of the kinds the API legally accepts"""
+    if n is None or kind in (None, "int"):
+        return n
+    if kind == "bool":
+        return bool(n) if n in (0, 1) else n
+    if kind == "enum":
+        if n not in _ENUMS:
+            import enum
+            _ENUMS[n] = enum.IntEnum("K%d" % len(_ENUMS), {"V": n}).V
+        return _ENUMS[n]
+    if kind == "np" and -2 ** 31 < n < 2 ** 31:
+        import numpy
+        return numpy.int64(n)
+    return n
+
+
+def vertex_id(kind, i):
+    import collections
+    if kind == "int":
+        return 1000 + i
+    if kind == "str":
+        return "v%d %%s {} {0}" % i
+    if kind == "tuple":
+        return (i,) * (i % 4)
+    if kind == "namedtuple":
+        return collections.namedtuple("V", "a b")(i, "%d")
+    if kind == "frozenset":
+        return frozenset([i, "{}"])
+    return type("Vertex", (object,), {})()
+
+
+def make_root(spec, mc):
+    """create the view the way the case says; -> (view, what the allocator was asked or None)"""
+    from rig.machine_control.machine_controller import MemoryIO, SpiNNakerMemoryError
+    nk = spec.get("nk")
+    x, y = conv(spec["x"], nk), conv(spec["y"], nk)
+    mode = spec["mode"]
+    if mode == "direct":
+        if spec.get("kw"):
+            return MemoryIO(machine_controller=mc, x=x, y=y, start_address=spec["start"],
+                            end_address=spec["stop"]), None
+        return MemoryIO(mc, x, y, spec["start"], spec["stop"]), None
+    start = spec["start"]
+
+    def attempt():
+        n0 = len(mc.allocs)
+        if mode == "alloc":
+            size, tag, app, clear = spec["size"], spec.get("tag", 0), spec.get("app_id", 66), spec.get("clear", False)
+            mc.alloc_queue = [start]
+            how = spec.get("conv", "kwxy")
+            if how == "pos":
+                v = mc.sdram_alloc_as_filelike(size, tag, x, y, app, clear)
+            elif how == "kw":
+                v = mc.sdram_alloc_as_filelike(size=size, tag=tag, x=x, y=y, app_id=app, clear=clear)
+            elif how == "ctx":
+                with mc(x=x, y=y, app_id=app):
+                    v = mc.sdram_alloc_as_filelike(size, tag, clear=clear)
+            else:
+                v = mc.sdram_alloc_as_filelike(size, x=x, y=y)
+                tag, app, clear = 0, 66, False
+            _SIDE_TAGS.append("alloc-conv:" + how)
+            _SIDE_TAGS.append("alloc-args:ok" if mc.allocs[n0:] == [[size, tag, x, y, app, clear]]
+                              else "alloc-args:differ")
+            return v, mc.allocs[n0] if len(mc.allocs) > n0 else None
+        # sdram_alloc_for_vertices with several vertices, identifiers of every hashable kind, custom
+        # resource keys, caller-side edits of everything passed and handed back
+        from rig.machine_control.utils import sdram_alloc_for_vertices
+        from rig import place_and_route
+        cores_k, sdram_k = place_and_route.Cores, place_and_route.SDRAM
+        if spec.get("custom_res"):
+            cores_k, sdram_k = "cores %s", ("sdram", "{}")
+        others = spec.get("others", [])
+        pos = min(spec.get("pos", 0), len(others))
+        order = others[:pos] + [None] + others[pos:]
+        placements, allocations, queue, want_keys = {}, {}, [], []
+        prim = None
+        for i, o in enumerate(order):
+            if o is None:
+                vid = vertex_id(spec.get("vid", "object"), i)
+                prim = vid
+                placements[vid] = (x, y)
+                allocations[vid] = {cores_k: slice(spec.get("core0", 1), spec.get("core0", 1) + 1),
+                                    sdram_k: slice(spec["s0"], spec["s1"])}
+                queue.append(start)
+                want_keys.append(vid)
+            else:
+                vid = vertex_id(o["vid"], i)
+                placements[vid] = (o["x"], o["y"])
+                allocations[vid] = {cores_k: slice(o["core0"], o["core0"] + 2)}
+                if o["sd"] is not None:
+                    allocations[vid][sdram_k] = slice(o["sd"][0], o["sd"][1])
+                    queue.append(0x70000000 + 0x10000 * i)
+                    want_keys.append(vid)
+        mc.alloc_queue = queue
+        kw = {}
+        if "core_as_tag" in spec:
+            kw["core_as_tag"] = spec["core_as_tag"]
+        if spec.get("custom_res"):
+            kw["sdram_resource"], kw["cores_resource"] = sdram_k, cores_k
+        if spec.get("clear"):
+            kw["clear"] = True
+        if spec.get("kw"):
+            d = sdram_alloc_for_vertices(controller=mc, placements=placements, allocations=allocations, **kw)
+        else:
+            d = sdram_alloc_for_vertices(mc, placements, allocations, **kw)
+        _SIDE_TAGS.append("vertices:%d" % len(order))
+        _SIDE_TAGS.append("vertex-id:" + spec.get("vid", "object"))
+        _SIDE_TAGS.append("vertex-keys:ok" if sorted(map(id, d)) == sorted(map(id, want_keys)) else "vertex-keys:differ")
+        v = d[prim]
+        mine = next((a for a in mc.allocs[n0:] if a[2] == x and a[3] == y and a[0] == spec["s1"] - spec["s0"]), None)
+        want_tag = spec.get("core0", 1) if spec.get("core_as_tag", True) else 0
+        _SIDE_TAGS.append("vertex-tag:ok" if mine is not None and mine[1] == want_tag and mine[5] == bool(spec.get("clear"))
+                          else "vertex-tag:differ")
+        # the caller edits what it passed and what it was handed back; the view must not care
+        placements.clear()
+        for a in allocations.values():
+            a.clear()
+        allocations.clear()
+        d.clear()
+        return v, mine
+
+    if spec.get("alloc_fault") is not None:
+        # the allocator fails once (at that call), the caller tries again
+        mc.alloc_fault = len(mc.allocs) + spec["alloc_fault"]
+        try:
+            attempt()
+            _SIDE_TAGS.append("alloc-fault:not-propagated")
+        except SpiNNakerMemoryError:
+            _SIDE_TAGS.append("alloc-fault:propagated")
+        mc.alloc_fault = None
+    return attempt()
 
 
 def snap(v):
-    return [v._start_address, v._end_address, v._offset, bool(v.closed)]
+    return [int(v._start_address), int(v._end_address), int(v._offset), bool(v.closed)]
 
 
-def canon_ret(r, views):
+def canon_ret(r):
+    import numbers
     if r is None:
         return None
-    if isinstance(r, bool):
-        return {"err": "bool"}
-    if isinstance(r, int):
+    if isinstance(r, numbers.Integral):      # int, bool, IntEnum, numpy integers: the number they denote
         return int(r)
     if isinstance(r, (bytes, bytearray)):
         return {"b": list(r)}
     return {"err": "type:" + type(r).__name__}
 
 
+class _Boom(Exception):
+    """raised by the harness inside a with-block"""
+
+
 def call(view, op):
     k = op["k"]
+    nk = op.get("nk")
+    kw = op.get("kw")
     if k == "seek":
+        n, w = conv(op["n"], nk), conv(op["w"], nk)
         if op["w"] == 0 and op.get("short"):
-            return view.seek(op["n"])
-        return view.seek(op["n"], op["w"])
+            return view.seek(n_bytes=n) if kw else view.seek(n)
+        if kw == "mixed":
+            return view.seek(n, from_what=w)
+        return view.seek(n_bytes=n, from_what=w) if kw else view.seek(n, w)
     if k == "read":
         if op.get("dflt"):
             return view.read()
-        return view.read(op["n"])
+        n = conv(op["n"], nk)
+        return view.read(n_bytes=n) if kw else view.read(n)
     if k == "write":
-        return view.write(bytes(op["d"]))
+        dk = op.get("dk", "bytes")
+        data = bytes(op["d"])
+        if dk == "bytearray":
+            data = bytearray(data)
+        elif dk == "memoryview":
+            data = memoryview(data)
+        try:
+            return view.write(bytes=data) if kw else view.write(data)
+        finally:
+            if dk == "bytearray" and op.get("edit"):
+                data[:] = b"\xee" * len(data)        # the caller re-uses its buffer
     if k == "slice":
-        return view[slice(op["a"], op["b"], op["s"])]
+        return view[slice(conv(op["a"], nk), conv(op["b"], nk), conv(op["s"], nk))]
     if k == "index":
         return view[(slice(0, 1), slice(1, 2))] if op.get("tuple") else view[0]
     if k == "tell":
@@ -204,6 +418,14 @@ def call(view, op):
     if k == "flush":
         return view.flush()
     if k == "close":
+        if op.get("with") == "exc":
+            try:
+                with view:
+                    raise _Boom()
+            except _Boom:
+                return None
+            _SIDE_TAGS.append("with-exc:swallowed")
+            return None
         if op.get("with"):
             with view:
                 pass
@@ -215,43 +437,79 @@ def call(view, op):
 
 
 def run_impl(case):
-    """Run the history on the real code; returns dict(outs, steps, views, freed, win)."""
+    """Run the history on the real code; returns dict(outs (per op), objs (per view owner))."""
+    from harness import common
+    if case.get("reload"):
+        # a session (several owners used alternately) starts from a freshly loaded module: module- and
+        # class-level state starts as in a new process, so the case and its replay are self-contained
+        import importlib
+        from rig.machine_control import machine_controller as mcm
+        importlib.reload(mcm)
+        _FAKE.clear()
+        _SIDE_TAGS.append("module-reloaded")
     from rig.machine_control.machine_controller import SlicedMemoryIO, TruncationWarning
     from rig.machine_control.scp_connection import SCPError
-    start, _ = root_range(case)
-    base = start - case["margin"]
-    mc = fake_class()(base, case["win"], start)
-    root = make_root(case, mc)
-    views = [root]
-    root0 = snap(root)
-    outs, steps = [], []
+    mc = fake_class()({"app_id": 66, "x": None, "y": None})
+    objs = []
+    for s in specs(case):
+        start, _ = root_range(s)
+        region = {"x": s["x"], "y": s["y"], "base": start - s["margin"], "mem": bytearray(s["win"]), "far": {}}
+        mc.regions.append(region)
+        try:
+            with common.cpu_limit(5):
+                root, asked = make_root(s, mc)
+        except common.ImplHang as e:
+            return {"create_err": "DidNotReturn: %s" % e, "hang": True}
+        except (ImportError, SyntaxError):
+            raise
+        except Exception as e:
+            return {"create_err": "%s: %s" % (type(e).__name__, e)}
+        objs.append({"root": root, "views": [root], "root0": snap(root), "region": region, "steps": [],
+                     "outs": [], "asked": asked, "win0": list(s["win"])})
+    outs = []
     for k, op in enumerate(case["ops"]):
+        ob = objs[op.get("o", 0)] if 0 <= op.get("o", 0) < len(objs) else None
+        views = ob["views"] if ob else []
         if not 0 <= op["v"] < len(views):
             # the history refers to a view this implementation never created (an earlier slicing
             # behaved differently from what the generator assumed): same result as the model's
             # `noSuchView`, nothing is called, the oracle skips the step
-            outs.append({"ret": {"err": "noSuchView"}, "warn": False, "acc": None})
+            out = {"ret": {"err": "noSuchView"}, "warn": False, "acc": None}
+            outs.append(out)
+            if ob:
+                ob["outs"].append(out)
             continue
-        v = views[op["v"]]
+        v, root = views[op["v"]], ob["root"]
         pre, freed = snap(v), bool(root._freed)
+        wb = list(ob["region"]["mem"])
+        if wb == (ob["steps"][-1]["win"] if ob["steps"] else ob["win0"]):
+            wb = None
         del mc.log[:]
         nv = None
-        # fault injection: the controller's read / write raises during this call (if it is reached)
+        # fault injection: the controller's read / write / sdram_free raises during this call (if it is reached)
         mc.fault = (op["fault"], op.get("exc", "timeout")) if op.get("fault") is not None else None
         with warnings.catch_warnings(record=True) as wl:
             warnings.simplefilter("always")
             try:
-                r = call(v, op)
+                # a call takes microseconds (the model is total): still running after 2 s of CPU time =
+                # it did not return (0.3 s after three such calls)
+                with common.cpu_limit(2 if _HANGS[0] < 3 else 0.3):
+                    r = call(v, op)
                 if isinstance(r, SlicedMemoryIO):
                     views.append(r)
                     nv = snap(r)
                     ret = {"view": len(views) - 1}
                 else:
-                    ret = canon_ret(r, views)
+                    ret = canon_ret(r)
+            except common.ImplHang as e:
+                _HANGS[0] += 1
+                ret = {"err": "DidNotReturn", "where": str(e)}
             except SCPError:
                 ret = {"err": "TransferError"}      # the controller's documented transfer errors
             except (OSError, ValueError, AttributeError) as e:
                 ret = {"err": type(e).__name__}
+            except (ImportError, SyntaxError):
+                raise
             except Exception as e:  # any other exception is an observation, not a harness fault
                 ret = {"err": "Other:" + type(e).__name__}
         mc.fault = None
@@ -260,31 +518,44 @@ def run_impl(case):
         if len(mc.log) > 1:
             out["extra_acc"] = [list(a) for a in mc.log[1:]]
         outs.append(out)
-        steps.append({"idx": k, "root": op["v"] == 0, "pre": pre, "freed": freed, "op": op, "out": out,
-                      "post": snap(v), "pfreed": bool(root._freed), "nv": nv, "win": list(mc.mem)})
-    return {"outs": outs, "steps": steps, "views": [snap(v) for v in views], "root0": root0,
-            "freed": bool(root._freed), "win": list(mc.mem), "alloc": getattr(mc, "alloc", None)}
+        ob["outs"].append(out)
+        ob["steps"].append({"idx": k, "wb": wb, "root": op["v"] == 0, "pre": pre, "freed": freed, "op": op, "out": out,
+                            "post": snap(v), "pfreed": bool(root._freed), "nv": nv, "win": list(ob["region"]["mem"])})
+    res = []
+    for ob in objs:
+        res.append({"steps": ob["steps"], "outs": ob["outs"], "views": [snap(v) for v in ob["views"]],
+                    "root0": ob["root0"], "freed": bool(ob["root"]._freed), "win": list(ob["region"]["mem"]),
+                    "asked": ob["asked"]})
+    return {"outs": outs, "objs": res}
 
 
 # --------------------------------------------------------------------------
 # evaluation: model correspondence + Lean oracle
 # --------------------------------------------------------------------------
 def lean_reqs(case, impl):
-    start, _ = root_range(case)
-    base = start - case["margin"]
-    tr = {"suite": "c13", "op": "trace", "x": case["x"], "y": case["y"], "base": base, "win": case["win"],
-          "mode": case["mode"], "start": case["start"], "ops": case["ops"]}
-    for k in ("stop", "size", "s0", "s1"):
-        if k in case:
-            tr[k] = case[k]
-    ck = {"suite": "c13", "op": "check", "x": case["x"], "y": case["y"], "base": base, "win": case["win"],
-          "steps": [dict(s, out={k: s["out"][k] for k in ("ret", "warn", "acc")}) for s in impl["steps"]]}
-    # memory before a step = memory after the previous executed step (skipped steps touch nothing)
-    if impl["alloc"] is not None:
-        # the view must span exactly what was allocated: sdram_alloc(size) returned `start`
-        ck["alloc"] = [start, impl["alloc"][0]]
-        ck["root"] = impl["root0"]
-    return [tr, ck]
+    """two requests (model trace, oracle) per view owner"""
+    reqs = []
+    for o, (s, ob) in enumerate(zip(specs(case), impl["objs"])):
+        start, _ = root_range(s)
+        base = start - s["margin"]
+        ops = [op for op in case["ops"] if op.get("o", 0) == o]
+        tr = {"suite": "c13", "op": "trace", "x": s["x"], "y": s["y"], "base": base, "win": s["win"],
+              "mode": s["mode"], "start": s["start"], "ops": ops}
+        for k in ("stop", "size", "s0", "s1"):
+            if k in s:
+                tr[k] = s[k]
+        # (memory before a step = memory after the previous executed step; skipped steps touch nothing)
+        steps = [] if s.get("nooracle") else \
+            [dict(t, out={k: t["out"][k] for k in ("ret", "warn", "acc")}) for t in ob["steps"]]
+        ck = {"suite": "c13", "op": "check", "x": s["x"], "y": s["y"], "base": base, "win": s["win"], "steps": steps}
+        if ob["asked"] is not None:
+            # the view must span exactly what was allocated (sdram_alloc(size) returned `start`), on the
+            # chip the allocation was made on
+            ck["alloc"] = [start, int(ob["asked"][0])]
+            ck["alloc_xy"] = [int(ob["asked"][2]), int(ob["asked"][3])]
+            ck["root"] = ob["root0"]
+        reqs += [tr, ck]
+    return reqs
 
 
 def key_of(fails):
@@ -294,78 +565,92 @@ def key_of(fails):
     return "bounded-file"
 
 
-def judge(case, impl, model, check):
+def judge(case, impl, reps):
     """-> (mismatch detail or None, [(step index, key, clauses)])"""
-    mm = None
-    if "proto_error" in model:
-        mm = "model: " + model["proto_error"]
-    else:
-        m_outs = model["outs"]
-        i_outs = [{k: o[k] for k in ("ret", "warn", "acc")} for o in impl["outs"]]
-        if m_outs != i_outs:
-            k = next((i for i, (a, b) in enumerate(zip(m_outs, i_outs)) if a != b), min(len(m_outs), len(i_outs)))
-            mm = "step %d (%s): impl=%r model=%r" % (k, case["ops"][k]["k"] if k < len(case["ops"]) else "?",
-                                                    i_outs[k] if k < len(i_outs) else None,
-                                                    m_outs[k] if k < len(m_outs) else None)
-        elif model["views"] != impl["views"]:
-            mm = "final views differ: impl=%r model=%r" % (impl["views"], model["views"])
-        elif model["freed"] != impl["freed"]:
-            mm = "freed flag differs"
-        elif model["win"] != impl["win"]:
-            mm = "final memory differs: impl=%r model=%r" % (impl["win"], model["win"])
-        if mm is None and any("extra_acc" in o for o in impl["outs"]):
-            mm = "more than one controller access in one call"
-    viol = []
-    if "proto_error" in check:
-        mm = mm or ("oracle: " + check["proto_error"])
-    else:
-        for st, fails in zip(impl["steps"], check["fails"]):
-            if fails:
-                key = key_of(fails)
-                if key == "bounded-file" and st["op"].get("fault") is not None and st["out"]["acc"] is not None:
-                    key = "failed-transfer"     # the controller raised during this call
-                viol.append((st["idx"], key, fails))
-        if check.get("root"):
-            viol.append((-1, "confinement", ["root-view-is-not-the-allocation"]))
-    # an extra controller access in the same call: judge its confinement here
-    for i, o in enumerate(impl["outs"]):
-        for a in o.get("extra_acc", []):
-            st = next(t for t in impl["steps"] if t["idx"] == i)
-            s, e = st["pre"][0], st["pre"][1]
-            n = a[2] if a[0] == "r" else len(a[2]) if a[0] == "w" else 1
-            if a[0] == "f" or not (s <= a[1] and a[1] + n <= e and n > 0):
-                viol.append((i, "confinement", ["confinement"]))
+    mm, viol = None, []
+    for o, ob in enumerate(impl["objs"]):
+        model, check = reps[2 * o], reps[2 * o + 1]
+        ops = [op for op in case["ops"] if op.get("o", 0) == o]
+        if "proto_error" in model:
+            mm = mm or ("model: " + model["proto_error"])
+        elif mm is None:
+            m_outs = model["outs"]
+            i_outs = [{k: t[k] if k != "ret" or not isinstance(t[k], dict) or "where" not in t[k]
+                       else {"err": t[k]["err"]} for k in ("ret", "warn", "acc")} for t in ob["outs"]]
+            if m_outs != i_outs:
+                k = next((i for i, (a, b) in enumerate(zip(m_outs, i_outs)) if a != b), min(len(m_outs), len(i_outs)))
+                mm = "owner %d step %d (%s): impl=%r model=%r" % (
+                    o, k, ops[k]["k"] if k < len(ops) else "?",
+                    i_outs[k] if k < len(i_outs) else None, m_outs[k] if k < len(m_outs) else None)
+            elif model["views"] != ob["views"]:
+                mm = "final views differ: impl=%r model=%r" % (ob["views"], model["views"])
+            elif model["freed"] != ob["freed"]:
+                mm = "freed flag differs"
+            elif model["win"] != ob["win"]:
+                mm = "final memory differs: impl=%r model=%r" % (ob["win"], model["win"])
+            if mm is None and any("extra_acc" in t for t in ob["outs"]):
+                mm = "more than one controller access in one call"
+        if "proto_error" in check:
+            mm = mm or ("oracle: " + check["proto_error"])
+        else:
+            for st, fails in zip(ob["steps"], check["fails"]):
+                if isinstance(st["out"]["ret"], dict) and st["out"]["ret"].get("err") == "DidNotReturn":
+                    continue                        # reported once, as did-not-return (below)
+                if fails:
+                    key = key_of(fails)
+                    if key == "bounded-file" and st["op"].get("fault") is not None and st["out"]["acc"] is not None:
+                        key = "failed-transfer"     # the controller raised during this call
+                    viol.append((st["idx"], key, fails))
+            if check.get("root"):
+                viol.append((-1, "confinement", ["root-view-is-not-the-allocation"]))
+        for st in ob["steps"]:
+            # the model is total (Lean): a call that does not return is a finding
+            if isinstance(st["out"]["ret"], dict) and st["out"]["ret"].get("err") == "DidNotReturn":
+                viol.append((st["idx"], "did-not-return", [st["out"]["ret"].get("where", "")]))
+            # an extra controller access in the same call: judge its confinement here
+            for a in st["out"].get("extra_acc", []):
+                s, e = st["pre"][0], st["pre"][1]
+                n = a[2] if a[0] == "r" else len(a[2]) if a[0] == "w" else 1
+                if a[0] == "f" or not (s <= a[1] and a[1] + n <= e and n > 0):
+                    viol.append((st["idx"], "confinement", ["confinement"]))
     return mm, viol
 
 
 def eval_cases(ctx, cases, report=True):
-    """Run implementation, model and oracle on every case. Returns per-case (mm, viol)."""
+    """Run implementation, model and oracle on every case. Returns per-case (mm, viol, impl)."""
     impls = [run_impl(c) for c in cases]
-    reqs = []
+    reqs, spans = [], []
     for c, im in zip(cases, impls):
-        reqs += lean_reqs(c, im)
+        r = [] if "create_err" in im else lean_reqs(c, im)
+        spans.append((len(reqs), len(r)))
+        reqs += r
     reps = ctx.lean(reqs)
     res = []
-    for i, (c, im) in enumerate(zip(cases, impls)):
-        mm, viol = judge(c, im, reps[2 * i], reps[2 * i + 1])
-        res.append((mm, viol, im))
+    for c, im, (a, n) in zip(cases, impls, spans):
+        if "create_err" in im:
+            viol = [(-1, "did-not-return", [im["create_err"]])] if im.get("hang") else []
+            res.append(("creating the view failed: " + im["create_err"], viol, dict(im, outs=[], objs=[])))
+        else:
+            mm, viol = judge(c, im, reps[a:a + n])
+            res.append((mm, viol, im))
     return res
 
 
 def drop_op(case, k, outs):
-    """case without op k (indices of later views adjusted); None if not possible.
+    """case without op k (indices of later views of the same owner adjusted); None if not possible.
     `outs`: what the implementation returned for each op of `case`"""
     ops = case["ops"]
     new = [dict(o) for o in ops[:k]]
     r = outs[k]["ret"] if k < len(outs) else None
     if isinstance(r, dict) and "view" in r:
-        j = r["view"]                       # index of the view this op created
+        j, own = r["view"], ops[k].get("o", 0)     # index of the view this op created
         for o in ops[k + 1:]:
-            if o["v"] == j:
-                return None
             o = dict(o)
-            if o["v"] > j:
-                o["v"] -= 1
+            if o.get("o", 0) == own:
+                if o["v"] == j:
+                    return None
+                if o["v"] > j:
+                    o["v"] -= 1
             new.append(o)
     else:
         new += [dict(o) for o in ops[k + 1:]]
@@ -373,7 +658,7 @@ def drop_op(case, k, outs):
 
 
 def shrink(ctx, case, key, budget=60):
-    """greedy: cut the tail after the first failing step, then drop single ops"""
+    """greedy: cut the tail after the first failing step, drop the twins, then drop single ops"""
     last = {}
 
     def fails(c):
@@ -387,7 +672,12 @@ def shrink(ctx, case, key, budget=60):
         return case
     case = dict(case, ops=case["ops"][:max(f[0], 0) + 1])
     last["outs"] = last["outs"][:len(case["ops"])]
-    changed = True
+    if case.get("twins"):
+        alone = {k: v for k, v in case.items() if k != "twins"}
+        alone["ops"] = [op for op in case["ops"] if op.get("o", 0) == 0]
+        if fails(alone):
+            case = alone
+    changed = len(case["ops"]) <= 400
     while changed and budget > 0:
         changed = False
         for k in range(len(case["ops"]) - 2, -1, -1):
@@ -402,7 +692,11 @@ def shrink(ctx, case, key, budget=60):
 
 
 def process(ctx, cases):
+    del _SIDE_TAGS[:]
     res = eval_cases(ctx, cases)
+    for t in _SIDE_TAGS:
+        ctx.tag(t)
+    del _SIDE_TAGS[:]
     reported = set(k for k, _, _ in ctx.concrete)
     for c, (mm, viol, im) in zip(cases, res):
         ctx.traces += 1
@@ -418,9 +712,21 @@ def process(ctx, cases):
             ctx.tag(t)
             if op["v"] > 0 and o["acc"]:
                 ctx.tag("access-through-slice")
-        ctx.tag("mode:" + c["mode"])
+            for f in ("nk", "kw", "dk"):
+                if op.get(f) not in (None, False, "int", "bytes"):
+                    ctx.tag("%s:%s" % (f, op[f]))
+            if op.get("edit"):
+                ctx.tag("buffer-edited-after-write")
+            if op.get("big"):
+                ctx.tag("big-int-argument")
+        for s in specs(c):
+            ctx.tag("mode:" + s["mode"])
+        for f in ("stream", "twin"):
+            if c.get(f):
+                ctx.tag("%s:%s" % (f, c[f]))
         nontriv = any(o["warn"] for o in im["outs"])
-        ctx.case(c, nontriv, sample_every=997)
+        ctx.case(c if len(c["ops"]) <= 60 else dict(c, ops=c["ops"][:60], win=c["win"][:80], truncated_for_evidence=True),
+                 nontriv, sample_every=997)
         if mm:
             ctx.mismatch("c13.trace", mm, c)
         for key in sorted(set(k for _, k, _ in viol)):
@@ -433,10 +739,10 @@ def process(ctx, cases):
             first = next(((i, cl) for i, k, cl in viol2 if k == key), None)
             detail = ""
             if first and first[0] < 0:
-                detail = " | the view created for an allocation of %r bytes at %r is %r" % (
-                    im2["alloc"][0], small["start"], im2["root0"])
+                detail = " | the view created for the allocation %r at %r is %r (%r)" % (
+                    [ob["asked"] for ob in im2["objs"]], small["start"], [ob["root0"] for ob in im2["objs"]], first[1])
             elif first:
-                st = next(t for t in im2["steps"] if t["idx"] == first[0])
+                st = next(t for ob in im2["objs"] for t in ob["steps"] if t["idx"] == first[0])
                 detail = " | step %d: view [start,stop,offset,closed]=%r freed=%r op=%r -> %r, view after %r; failed clauses %r" % (
                     first[0], st["pre"], st["freed"], st["op"], st["out"], st["post"], first[1])
             if small["ops"] != c["ops"]:
@@ -447,6 +753,21 @@ def process(ctx, cases):
 # --------------------------------------------------------------------------
 # generators
 # --------------------------------------------------------------------------
+BIG = [2 ** 31 - 1, 2 ** 31, 2 ** 32 - 1, 2 ** 32, 2 ** 53 + 1, 2 ** 63 - 1, 2 ** 63, 2 ** 64, 2 ** 100]
+BIG_BASES = [2 ** 32 - 8, 2 ** 32, 2 ** 53 + 1, 2 ** 63 - 4, 2 ** 64 - 2, 2 ** 64, 2 ** 100]
+_NUMPY = []
+
+
+def have_numpy():
+    if not _NUMPY:
+        try:
+            import numpy  # noqa: F401
+            _NUMPY.append(True)
+        except ImportError:
+            _NUMPY.append(False)
+    return _NUMPY[0]
+
+
 def edge_int(rng, L):
     r = rng.random()
     if r < 0.5:
@@ -454,114 +775,345 @@ def edge_int(rng, L):
     return rng.randint(-L - 3, L + 4)
 
 
-def gen_case(rng):
+def big_int(rng, L):
+    b = rng.choice(BIG)
+    return rng.choice([b, -b, L + b, L - b, b + 1, -b - 1])
+
+
+def palette(rng):
+    """which kinds of integer arguments the calls of one case use"""
     r = rng.random()
-    if r < 0.1:
-        L = 0
-    elif r < 0.85:
-        L = rng.randint(1, 12)
-    else:
-        L = rng.randint(13, 40)
-    start = rng.choice(BASES)
+    if r < 0.55:
+        return {"nk": ["int"], "big": False}
+    if r < 0.72:
+        return {"nk": ["int"], "big": True}         # big integers (never mixed with fixed-width numpy ints)
+    kinds = ["int", "bool", "enum"] + (["np", "np"] if have_numpy() else [])
+    if r < 0.85:
+        return {"nk": [rng.choice(kinds[1:])], "big": False}
+    return {"nk": kinds, "big": False}
+
+
+def new_state(L):
+    """generator aid only: what the views of one owner look like under the specification"""
+    return {"lens": [L], "depth": [0], "closed": [False], "freed": False}
+
+
+def gen_spec(rng, pal, L=None):
+    """one view owner: where it is, how it is created"""
+    if L is None:
+        r = rng.random()
+        L = 0 if r < 0.1 else rng.randint(1, 12) if r < 0.85 else rng.randint(13, 40)
+    start = rng.choice(BIG_BASES) if pal["big"] and rng.random() < 0.5 else rng.choice(BASES)
     if start < MARGIN and rng.random() < 0.5:
         start = rng.choice([MARGIN, 100, 1000])
-    case = {"x": rng.randrange(256), "y": rng.randrange(256), "margin": MARGIN, "start": start}
+    spec = {"x": rng.randrange(256), "y": rng.randrange(256), "margin": MARGIN, "start": start,
+            "nk": rng.choice(pal["nk"])}
+    if spec["nk"] == "bool":
+        spec["x"], spec["y"] = rng.randrange(2), rng.randrange(2)
     m = rng.random()
-    if m < 0.5:
-        case["mode"] = "direct"
-        case["stop"] = start + L
+    if m < 0.45:
+        spec["mode"] = "direct"
+        spec["stop"] = start + L
         if rng.random() < 0.08:
-            case["stop"] = start - rng.randint(1, 9)
+            spec["stop"] = start - rng.randint(1, 9)
             L = 0
-    elif m < 0.8:
-        case["mode"] = "alloc"
-        case["size"] = L
+        if rng.random() < 0.15:
+            spec["kw"] = True
+    elif m < 0.75:
+        spec["mode"] = "alloc"
+        spec["size"] = L
+        spec["conv"] = rng.choice(["kwxy", "pos", "kw", "ctx"])
+        if spec["conv"] != "kwxy":
+            spec["tag"] = rng.choice([0, 1, 12, 255])
+            spec["app_id"] = rng.choice([0, 30, 66, 255])
+            spec["clear"] = rng.random() < 0.4
+        if rng.random() < 0.08:
+            spec["alloc_fault"] = 0
     else:
-        case["mode"] = "vertex"
-        case["s0"] = rng.choice([0, 4, 204])
-        case["s1"] = case["s0"] + L
-    case["win"] = [rng.randrange(256) for _ in range(2 * MARGIN + L)]
-    lens = [L]        # generator aid only: lengths of the views created so far
-    depth = [0]
-    closed, freed = [False], False      # generator aid: which views the guarded code refuses to slice
-    ops = []
-    target = rng.randint(1, 14)
-    pending = []                         # follow-ups of an injected fault (the view keeps being used)
+        spec["mode"] = "vertex"
+        spec["s0"] = rng.choice([0, 4, 204, 2 ** 32]) if pal["big"] else rng.choice([0, 4, 204])
+        spec["s1"] = spec["s0"] + L
+        spec["vid"] = rng.choice(["object", "int", "str", "tuple", "namedtuple", "frozenset"])
+        spec["core0"] = rng.randrange(18)
+        n_others = rng.choice([0, 0, 1, 2, 3])
+        spec["others"] = [{"vid": rng.choice(["object", "int", "str", "tuple", "namedtuple", "frozenset"]),
+                           "x": rng.randrange(256), "y": rng.randrange(256), "core0": rng.randrange(16),
+                           "sd": None if rng.random() < 0.3 else [0, rng.randint(0, 64)]} for _ in range(n_others)]
+        spec["pos"] = rng.randint(0, n_others)
+        if rng.random() < 0.5:
+            spec["core_as_tag"] = rng.random() < 0.5
+        spec["custom_res"] = rng.random() < 0.25
+        spec["clear"] = rng.random() < 0.2
+        spec["kw"] = rng.random() < 0.2
+        if rng.random() < 0.08:
+            n_alloc = 1 + sum(1 for o in spec["others"] if o["sd"] is not None)
+            spec["alloc_fault"] = rng.randrange(n_alloc)
+    spec["win"] = [rng.randrange(256) for _ in range(2 * MARGIN + L)]
+    return spec, L
+
+
+def gen_twin(rng, spec, L):
+    """a second owner equal to the first in all but one aspect (own memory, so never the same bytes)"""
+    t = {k: (list(v) if isinstance(v, list) else v) for k, v in spec.items() if k not in ("ops", "twins")}
+    what = rng.choice(["chip-x", "chip-y", "chip-swapped", "base", "length", "content"])
+    L2 = L
+    if what == "chip-x":
+        t["x"] = (spec["x"] + 1) % (2 if spec["nk"] == "bool" else 256)
+    elif what == "chip-y":
+        t["y"] = (spec["y"] + 1) % (2 if spec["nk"] == "bool" else 256)
+    elif what == "chip-swapped" and spec["x"] != spec["y"]:
+        t["x"], t["y"] = spec["y"], spec["x"]
+    elif what == "length":
+        L2 = L + 1
+        t["start"] = spec["start"] + 0x1000
+        for k, base in (("stop", t["start"]), ("size", 0), ("s1", t.get("s0", 0))):
+            if k in t:
+                t[k] = base + L2
+        t["win"] = list(spec["win"]) + [rng.randrange(256)]
+    else:
+        t["start"] = spec["start"] + 0x1000
+        if "stop" in t:
+            t["stop"] = t["start"] + (spec["stop"] - spec["start"])
+        if what == "content":
+            t["win"] = [rng.randrange(256) for _ in spec["win"]]
+        else:
+            what = "base"
+    if (t["x"], t["y"], t["start"]) == (spec["x"], spec["y"], spec["start"]):
+        t["x"] = (spec["x"] + 1) % (2 if spec["nk"] == "bool" else 256)
+        what = "chip-x"
+    return t, L2, what
+
+
+def gen_op(rng, G, o, pal, pending, small_io=False):
+    """one call on one view of owner `o` (generator state `G`); follow-ups go to `pending`"""
+    lens, depth, closed = G["lens"], G["depth"], G["closed"]
+    v = rng.randrange(len(lens)) if rng.random() < 0.7 else len(lens) - 1
+    Lv = lens[v]
+    big = pal["big"] and rng.random() < 0.3
+
+    def num():
+        return big_int(rng, Lv) if big else edge_int(rng, Lv)
+    r = rng.random()
+    if r < 0.24:
+        w = rng.choice([0, 0, 0, 1, 1, 2, 2])
+        if rng.random() < 0.04:
+            w = rng.choice([3, -1, 7] + ([2 ** 64] if pal["big"] else []))
+        op = {"k": "seek", "v": v, "n": num(), "w": w}
+        if w == 0 and rng.random() < 0.5:
+            op["short"] = True
+        if rng.random() < 0.12:
+            op["kw"] = rng.choice([True, "mixed"])
+    elif r < 0.44:
+        if rng.random() < 0.3 and not small_io:
+            op = {"k": "read", "v": v, "n": -1, "dflt": True}
+        elif small_io:
+            op = {"k": "read", "v": v, "n": rng.randint(0, 40)}
+        else:
+            op = {"k": "read", "v": v, "n": abs(big_int(rng, Lv)) if big else rng.choice(
+                [0, 1, 2, 3, Lv, Lv + 1, 2 * Lv + 1, -1, -5, rng.randint(0, Lv + 4)])}
+            if rng.random() < 0.12:
+                op["kw"] = True
+    elif r < 0.64:
+        n = rng.choice([0, 1, 2, 3, min(Lv, 40), min(Lv, 40) + 1, min(2 * Lv, 80), rng.randint(0, min(Lv, 40) + 4)])
+        op = {"k": "write", "v": v, "d": [rng.randrange(256) for _ in range(n)]}
+        k = rng.random()
+        if k < 0.25:
+            op["dk"] = "bytearray"
+            op["edit"] = rng.random() < 0.6
+        elif k < 0.4:
+            op["dk"] = "memoryview"
+        if rng.random() < 0.12:
+            op["kw"] = True
+        big = False
+    elif r < 0.78 and depth[v] < 4:
+        a = None if rng.random() < 0.25 else num()
+        b = None if rng.random() < 0.25 else num()
+        s = rng.choice([None, None, None, 1, 1, 2, -1, 0] + ([2 ** 64] if pal["big"] else []))
+        op = {"k": "slice", "v": v, "a": a, "b": b, "s": s}
+        if s in (None, 1) and not closed[v] and not G["freed"]:
+            lo, hi, _ = slice(a, b).indices(Lv)
+            lens.append(max(0, hi - lo))
+            depth.append(depth[v] + 1)
+            closed.append(False)
+    elif r < 0.80:
+        op = {"k": "index", "v": v, "tuple": rng.random() < 0.5}
+        big = False
+    elif r < 0.85:
+        op = {"k": "tell", "v": v}
+        big = False
+    elif r < 0.88:
+        op = {"k": "address", "v": v}
+        big = False
+    elif r < 0.91:
+        op = {"k": "len", "v": v}
+        big = False
+    elif r < 0.93:
+        op = {"k": "flush", "v": v}
+        big = False
+    elif r < 0.97:
+        op = {"k": "close", "v": v, "with": rng.choice([False, False, True, "exc"])}
+        if not G["freed"]:
+            closed[v] = True
+        big = False
+    else:
+        op = {"k": "free", "v": v if rng.random() < 0.3 else 0}
+        big = False
+        if op["v"] == 0 and rng.random() < 0.25:
+            # the controller's sdram_free fails: nothing is freed, the views stay usable, free() again
+            op["fault"], op["exc"] = 0, rng.choice(["timeout", "fatal"])
+            pending += [{"k": "tell", "v": 0, "o": o}, {"k": "read", "v": 0, "n": 2, "o": o}, {"k": "free", "v": 0, "o": o}]
+        if op["v"] == 0:
+            G["freed"] = True           # (after the follow-ups, if any)
+    if big:
+        op["big"] = True
+    if op["k"] in ("seek", "read", "slice"):
+        nk = rng.choice(pal["nk"])
+        if nk != "int":
+            op["nk"] = nk
+    if op["k"] in ("read", "write") and rng.random() < 0.15:
+        # fault injection: the controller raises during this call (if a transfer is made); a
+        # failing write has stored `fault` bytes of what it was handed
+        retry = dict(op)
+        op["fault"] = rng.choice([0, 0, 1, 2, 3, Lv, 100]) if op["k"] == "write" else 0
+        op["exc"] = rng.choice(["timeout", "timeout", "fatal"])
+        f = rng.random()
+        if f < 0.35:
+            pending += [{"k": "tell", "v": v}, retry]
+        elif f < 0.55:
+            pending += [{"k": "seek", "v": v, "n": rng.choice([-1, 0, 1, 2]), "w": 1}, retry, {"k": "tell", "v": v}]
+        elif f < 0.7 and not small_io:
+            pending += [retry, {"k": "seek", "v": v, "n": 0, "w": 0, "short": True},
+                        {"k": "read", "v": v, "n": -1, "dflt": True}]
+        elif f < 0.8:
+            pending += [{"k": "slice", "v": v, "a": None, "b": None, "s": None}, {"k": "close", "v": v}]
+            if not closed[v] and not G["freed"]:
+                lens.append(Lv)
+                depth.append(depth[v] + 1)
+                closed.append(False)
+            if not G["freed"]:
+                closed[v] = True
+    op["o"] = o
+    for p in pending:
+        p.setdefault("o", o)
+    return op
+
+
+def gen_ops(rng, owners, target, pal, mirrored=False, small_io=False):
+    ops, pending = [], []
     while len(ops) < target or pending:
         if pending:
             ops.append(pending.pop(0))
             continue
-        v = rng.randrange(len(lens)) if rng.random() < 0.7 else len(lens) - 1
-        Lv = lens[v]
-        r = rng.random()
-        if r < 0.24:
-            w = rng.choice([0, 0, 0, 1, 1, 2, 2])
-            if rng.random() < 0.04:
-                w = rng.choice([3, -1, 7])
-            op = {"k": "seek", "v": v, "n": edge_int(rng, Lv), "w": w}
-            if w == 0 and rng.random() < 0.5:
-                op["short"] = True
-        elif r < 0.44:
-            if rng.random() < 0.3:
-                op = {"k": "read", "v": v, "n": -1, "dflt": True}
-            else:
-                op = {"k": "read", "v": v, "n": rng.choice([0, 1, 2, 3, Lv, Lv + 1, 2 * Lv + 1, -1, -5, rng.randint(0, Lv + 4)])}
-        elif r < 0.64:
-            n = rng.choice([0, 1, 2, 3, Lv, Lv + 1, 2 * Lv, rng.randint(0, Lv + 4)])
-            op = {"k": "write", "v": v, "d": [rng.randrange(256) for _ in range(n)]}
-        elif r < 0.78 and depth[v] < 4:
-            a = None if rng.random() < 0.25 else edge_int(rng, Lv)
-            b = None if rng.random() < 0.25 else edge_int(rng, Lv)
-            s = rng.choice([None, None, None, 1, 1, 2, -1, 0])
-            op = {"k": "slice", "v": v, "a": a, "b": b, "s": s}
-            if s in (None, 1) and not closed[v] and not freed:
-                lo, hi, _ = slice(a, b).indices(Lv)
-                lens.append(max(0, hi - lo))
-                depth.append(depth[v] + 1)
-                closed.append(False)
-        elif r < 0.80:
-            op = {"k": "index", "v": v, "tuple": rng.random() < 0.5}
-        elif r < 0.85:
-            op = {"k": "tell", "v": v}
-        elif r < 0.88:
-            op = {"k": "address", "v": v}
-        elif r < 0.91:
-            op = {"k": "len", "v": v}
-        elif r < 0.93:
-            op = {"k": "flush", "v": v}
-        elif r < 0.97:
-            op = {"k": "close", "v": v, "with": rng.random() < 0.3}
-            if not freed:
-                closed[v] = True
+        if mirrored:
+            # twins do the same thing, in either order
+            op = gen_op(rng, owners[0], 0, pal, pending, small_io)
+            pair = [op, dict(op, o=1)]
+            if rng.random() < 0.5:
+                pair.reverse()
+            follow = list(pending)
+            del pending[:]
+            ops += pair
+            for p in follow:
+                ops += [p, dict(p, o=1)]
         else:
-            op = {"k": "free", "v": v if rng.random() < 0.3 else 0}
-            if op["v"] == 0:
-                freed = True
-        if op["k"] in ("read", "write") and rng.random() < 0.15:
-            # fault injection: the controller raises during this call (if a transfer is made); a
-            # failing write has stored `fault` bytes of what it was handed
-            retry = dict(op)
-            op["fault"] = rng.choice([0, 0, 1, 2, 3, Lv, 100]) if op["k"] == "write" else 0
-            op["exc"] = rng.choice(["timeout", "timeout", "fatal"])
-            f = rng.random()
-            if f < 0.35:
-                pending += [{"k": "tell", "v": v}, retry]
-            elif f < 0.55:
-                pending += [{"k": "seek", "v": v, "n": rng.choice([-1, 0, 1, 2]), "w": 1}, retry, {"k": "tell", "v": v}]
-            elif f < 0.7:
-                pending += [retry, {"k": "seek", "v": v, "n": 0, "w": 0, "short": True},
-                            {"k": "read", "v": v, "n": -1, "dflt": True}]
-            elif f < 0.8:
-                pending += [{"k": "slice", "v": v, "a": None, "b": None, "s": None}, {"k": "close", "v": v}]
-                if not closed[v] and not freed:
-                    lens.append(Lv)
-                    depth.append(depth[v] + 1)
-                    closed.append(False)
-                if not freed:
-                    closed[v] = True
-        ops.append(op)
-    case["ops"] = ops
+            o = rng.randrange(len(owners))
+            ops.append(gen_op(rng, owners[o], o, pal, pending, small_io))
+        if rng.random() < 0.05 and ops[-1]["k"] != "slice":
+            ops.append(dict(ops[-1]))           # the same call repeated
+    if len(owners) == 1:
+        for op in ops:
+            op.pop("o", None)
+    return ops
+
+
+def gen_case(rng):
+    pal = palette(rng)
+    case, L = gen_spec(rng, pal)
+    owners = [new_state(L)]
+    mirrored = False
+    if rng.random() < 0.08:
+        # a session: two owners (equal in all but one aspect) on one controller, used alternately,
+        # starting from a freshly loaded module
+        twin, L2, what = gen_twin(rng, case, L)
+        case["twins"], case["twin"], case["reload"] = [twin], what, True
+        owners.append(new_state(L2))
+        mirrored = rng.random() < 0.4
+    case["ops"] = gen_ops(rng, owners, rng.randint(1, 14), pal, mirrored)
     return case
+
+
+def scale_cases(rng, quick):
+    """a handful of cases far beyond the usual size"""
+    plain = {"nk": ["int"], "big": False}
+    mult = 1 if quick else 4
+    out = []
+    for _ in range(mult):
+        # (a) a long history on one small view
+        c, L = gen_spec(rng, plain, L=12)
+        c["ops"] = gen_ops(rng, [new_state(L)], 3000, plain)
+        c["stream"] = "scale:history-3000"
+        out.append(c)
+        # (c) hundreds of sibling slices of one view, then I/O through some of them
+        c, L = gen_spec(rng, plain, L=40)
+        n = 300 if quick else 1200
+        ops = []
+        for i in range(n):
+            ops.append({"k": "slice", "v": 0, "a": rng.randint(-45, 45), "b": rng.randint(-45, 45), "s": None})
+        for i in range(60):
+            v = rng.randint(1, n)
+            ops += [{"k": "seek", "v": v, "n": rng.randint(-2, 8), "w": 0},
+                    {"k": "write", "v": v, "d": [i % 256] * rng.randint(0, 9)},
+                    {"k": "seek", "v": v, "n": 0, "w": 0}, {"k": "read", "v": v, "n": -1, "dflt": True}]
+        ops += [{"k": "free", "v": 0}] + [{"k": "read", "v": rng.randint(0, n), "n": 1} for _ in range(20)]
+        c["ops"] = ops
+        c["stream"] = "scale:siblings-%d" % n
+        out.append(c)
+    for depth in ([1100] if quick else [1100, 1500]):
+        # (b) a chain of nested slices more than 1000 deep
+        c, L = gen_spec(rng, plain, L=depth + 100)
+        ops = []
+        for i in range(depth):
+            ops.append({"k": "slice", "v": i, "a": rng.choice([1, 1, 0, None]), "b": rng.choice([None, None, -0 or None]), "s": None})
+            if i % 97 == 96:
+                ops += [{"k": "seek", "v": i + 1, "n": rng.randint(-1, 3), "w": 0},
+                        {"k": "write", "v": i + 1, "d": [i % 256, 1, 2]}, {"k": "tell", "v": i + 1}]
+        ops += [{"k": "seek", "v": depth, "n": -2, "w": 2}, {"k": "read", "v": depth, "n": -1, "dflt": True},
+                {"k": "close", "v": depth // 2}, {"k": "slice", "v": depth // 2, "a": None, "b": None, "s": None},
+                {"k": "read", "v": depth, "n": 3}]
+        c["ops"] = ops
+        c["stream"] = "scale:depth-%d" % depth
+        out.append(c)
+    for L in ([65537, 70000] * mult):
+        # (d) views longer than anything counted in 16 bits (transfers at the edges stay small)
+        c, _ = gen_spec(rng, plain, L=L)
+        c["ops"] = [{"k": "seek", "v": 0, "n": L - 3, "w": 0}, {"k": "read", "v": 0, "n": -1, "dflt": True},
+                    {"k": "seek", "v": 0, "n": -5, "w": 1}, {"k": "write", "v": 0, "d": list(range(9))},
+                    {"k": "slice", "v": 0, "a": -6, "b": None, "s": None}, {"k": "read", "v": 1, "n": 100},
+                    {"k": "slice", "v": 0, "a": 65535, "b": 65539, "s": None}, {"k": "write", "v": 2, "d": [1, 2, 3, 4, 5, 6]},
+                    {"k": "len", "v": 2}, {"k": "seek", "v": 0, "n": 65534, "w": 0}, {"k": "read", "v": 0, "n": 4}]
+        c["stream"] = "scale:length-%d" % L
+        out.append(c)
+    bigp = {"nk": ["int"], "big": True}
+    for L in ([2 ** 32 + 5, 2 ** 64, 2 ** 100] * mult):
+        # (e) views longer than 2^32 / 2^64 bytes: positions, bounds and addresses are unbounded integers;
+        # memory is sparse and the whole-view content oracle is skipped (the model comparison judges)
+        c, _ = gen_spec(rng, bigp, L=40)
+        c = {k: v for k, v in c.items() if k not in ("stop", "size", "s0", "s1", "others", "alloc_fault")}
+        c["mode"], c["stop"], c["nooracle"] = "direct", c["start"] + L, True
+        G = new_state(L)
+        ops = [{"k": "seek", "v": 0, "n": L - 3, "w": 0}, {"k": "read", "v": 0, "n": 9},
+               {"k": "seek", "v": 0, "n": L - 2, "w": 0}, {"k": "write", "v": 0, "d": [7, 7, 7, 7, 7]},
+               {"k": "seek", "v": 0, "n": 2 ** 31, "w": 0}, {"k": "write", "v": 0, "d": [1, 2, 3]},
+               {"k": "seek", "v": 0, "n": -3, "w": 1}, {"k": "read", "v": 0, "n": 3}]
+        ops += gen_ops(rng, [G], 30, bigp, small_io=True)
+        if L >= 2 ** 63:
+            # CPython's len() cannot return more than sys.maxsize (OverflowError for any __len__): not a
+            # statement about the views, so len() is not called on views that long
+            ops = [dict(op, k="tell") if op["k"] == "len" else op for op in ops]
+        c["ops"] = ops
+        c["stream"] = "scale:length-2^%d" % (L.bit_length() - 1)
+        out.append(c)
+    return out
 
 
 EXH_ALPHABET = [
@@ -572,7 +1124,7 @@ EXH_ALPHABET = [
     {"k": "write", "d": [171]}, {"k": "write", "d": [1, 2, 3, 4]},
     {"k": "read", "n": 2, "fault": 0}, {"k": "write", "d": [7, 8], "fault": 1},
     {"k": "slice", "a": 1, "b": None, "s": None}, {"k": "slice", "a": -2, "b": -1, "s": None},
-    {"k": "close"}, {"k": "free"},
+    {"k": "close"}, {"k": "free"}, {"k": "free", "fault": 0},
 ]
 
 
@@ -590,7 +1142,7 @@ def exhaustive_cases(maxlen):
                     closed = False
                 elif op["k"] == "close" and not freed:
                     closed = True
-                elif op["k"] == "free":
+                elif op["k"] == "free" and op.get("fault") is None:
                     freed = True
                 ops.append(op)
             yield {"x": 3, "y": 5, "margin": 8, "mode": "direct", "start": 0x60000000, "stop": 0x60000003,
@@ -645,6 +1197,8 @@ def run(ctx):
     chunk = 2000
     for i in range(0, n, chunk):
         process(ctx, [gen_case(rng) for _ in range(min(chunk, n - i))])
+    for c in scale_cases(rng, ctx.quick):
+        process(ctx, [c])
     maxlen = ctx.scale(2, 4)
     if ctx.extended and ctx.quick:
         maxlen = 3
